@@ -28,6 +28,8 @@ type osOutcome struct {
 	Role    string // target | destination | member | other
 	Outcome string // ok | file | dir | ENOENT | ...
 	Pos     string
+	Role2   string // os.Rename: role of the new path
+	Trunc   string // os.OpenFile: "trunc" | "keep" | "?" (O_TRUNC in the flags)
 }
 
 type fsRun struct {
@@ -209,6 +211,19 @@ func (fx *fsExplorer) model(in *Interp, site ssa.CallInstruction, name string, a
 	case "os.Open", "os.Create", "os.OpenFile":
 		role := pathRole(args[0])
 		o := outcome(name, keyOf(args[0]), role)
+		if name == "os.OpenFile" && len(args) >= 2 {
+			tr := "?"
+			if fl, ok := in.concretise(args[1]); ok {
+				tr = "keep"
+				if fl&int64(os.O_TRUNC) != 0 {
+					tr = "trunc"
+				}
+				if fl&int64(os.O_WRONLY|os.O_RDWR) == 0 {
+					tr = "readonly"
+				}
+			}
+			fx.os[len(fx.os)-1].Trunc = tr
+		}
 		in.effect(name, site.Pos(), args[0], kStr(o))
 		if o == "ok" {
 			if name != "os.Open" {
@@ -227,7 +242,8 @@ func (fx *fsExplorer) model(in *Interp, site ssa.CallInstruction, name string, a
 		}
 		return fx.osError(in, name, o, args[0]), true
 	case "os.Rename":
-		o := outcome(name, keyOf(args[0])+","+keyOf(args[1]), "target")
+		o := outcome(name, keyOf(args[0])+","+keyOf(args[1]), pathRole(args[0]))
+		fx.os[len(fx.os)-1].Role2 = pathRole(args[1])
 		in.effect(name, site.Pos(), args[0], args[1], kStr(o))
 		if o == "ok" {
 			fx.epoch++
@@ -686,6 +702,140 @@ func c17Leaks(c *Ctx, r *RuleResult, runs []*fsRun) {
 	r.RequireRole("response")
 }
 
+// netChange replays the successful OS effects of a run over an abstract state
+// per resource role and reports the roles whose final state differs from the
+// state observed before the first effect ("absent" -> "new-file" -> removed
+// again is no change; "file" -> truncated -> removed is).
+func (run *fsRun) netChange() (changes []string, feasible bool, faults int) {
+	type st struct{ init, cur string }
+	states := map[string]*st{}
+	var order []string
+	get := func(role string) *st {
+		if s, ok := states[role]; ok {
+			return s
+		}
+		s := &st{init: "unknown", cur: "unknown"}
+		states[role] = s
+		order = append(order, role)
+		return s
+	}
+	touched := map[string]bool{}
+	feasible = true
+	kindOf := func(cur string) string {
+		switch cur {
+		case "file", "new-file", "truncated", "overwritten-in-place":
+			return "file"
+		case "dir", "new-dir":
+			return "dir"
+		case "absent", "removed":
+			return "ENOENT"
+		}
+		return ""
+	}
+	for _, o := range run.OS {
+		switch o.Call {
+		case "os.Stat", "Walk.lstat":
+			s := get(o.Role)
+			if !touched[o.Role] && s.init == "unknown" {
+				switch o.Outcome {
+				case "file", "dir":
+					s.init, s.cur = o.Outcome, o.Outcome
+				case "ENOENT":
+					s.init, s.cur = "absent", "absent"
+				default:
+					faults++ // ENOTDIR, EACCES: the resource cannot even be examined
+				}
+			} else if k := kindOf(s.cur); k != "" && k != o.Outcome {
+				// a later observation that contradicts what the request itself
+				// has done so far: not a sequential execution
+				if o.Outcome == "file" || o.Outcome == "dir" || o.Outcome == "ENOENT" {
+					feasible = false
+				} else {
+					faults++
+				}
+			}
+			continue
+		}
+		if o.Outcome != "ok" {
+			faults++
+			continue
+		}
+		switch o.Call {
+		case "os.Create", "os.OpenFile":
+			if o.Trunc == "readonly" {
+				continue
+			}
+			s := get(o.Role)
+			touched[o.Role] = true
+			switch s.cur {
+			case "dir", "new-dir":
+				feasible = false // EISDIR
+			case "absent", "new-file", "removed":
+				if s.cur == "removed" {
+					s.cur = "truncated" // replaced by a fresh file: the old content is gone
+				} else {
+					s.cur = "new-file"
+				}
+			default:
+				if o.Call == "os.OpenFile" && o.Trunc == "keep" {
+					s.cur = "overwritten-in-place"
+				} else {
+					s.cur = "truncated"
+				}
+			}
+		case "os.Mkdir":
+			s := get(o.Role)
+			touched[o.Role] = true
+			switch kindOf(s.cur) {
+			case "file", "dir":
+				feasible = false // EEXIST
+			}
+			if s.cur == "removed" {
+				s.cur = "replaced-by-new-dir"
+			} else {
+				s.cur = "new-dir"
+			}
+		case "os.Remove", "os.RemoveAll":
+			s := get(o.Role)
+			touched[o.Role] = true
+			switch s.cur {
+			case "new-file", "new-dir":
+				s.cur = "absent"
+			case "absent":
+				if o.Call == "os.Remove" {
+					feasible = false // ENOENT
+				}
+			case "removed", "replaced-by-new-dir":
+				s.cur = "removed"
+			default:
+				s.cur = "removed"
+			}
+		case "os.Rename":
+			a, b := get(o.Role), get(o.Role2)
+			touched[o.Role], touched[o.Role2] = true, true
+			switch a.cur {
+			case "new-file", "new-dir":
+				a.cur = "absent"
+			default:
+				a.cur = "removed"
+			}
+			if b.cur == "absent" {
+				b.cur = "new"
+			} else {
+				b.cur = "replaced"
+			}
+		}
+	}
+	for _, role := range order {
+		s := states[role]
+		if !touched[role] || s.cur == s.init {
+			continue
+		}
+		changes = append(changes, role+":"+s.init+"->"+s.cur)
+	}
+	return changes, feasible, faults
+}
+
 func c02Traces(c *Ctx, r *RuleResult, runs []*fsRun) {
 	seen := map[string]bool{}
 	for _, run := range runs {
@@ -693,9 +843,25 @@ func c02Traces(c *Ctx, r *RuleResult, runs []*fsRun) {
 		if len(run.Mutated) == 0 || !(strings.HasPrefix(run.Status, "4") || strings.HasPrefix(run.Status, "5")) {
 			continue
 		}
-		// a failure is reported although something was already changed; the
-		// failure of the destructive call itself does not count (it is not in
-		// Mutated); the fault that triggered the report:
+		changes, feasible, faults := run.netChange()
+		if !feasible {
+			r.Role("not-a-sequential-execution")
+			continue
+		}
+		if faults > 1 {
+			// the property is about one thing going wrong; a cleanup that
+			// fails as well is the operating system refusing the repair
+			r.Role("more-than-one-fault")
+			continue
+		}
+		if len(changes) == 0 {
+			// everything that was done was undone again (a new file created
+			// and removed): the tree is what it was
+			r.Role("undone")
+			continue
+		}
+		// the fault that made the request fail: the first failing call after
+		// the first effect, else the last failing call before it
 		var trigger *osOutcome
 		lastOK := -1
 		for i := range run.OS {
@@ -708,26 +874,38 @@ func c02Traces(c *Ctx, r *RuleResult, runs []*fsRun) {
 				}
 			}
 		}
-		for i := lastOK + 1; i < len(run.OS); i++ {
-			switch run.OS[i].Outcome {
+		failing := func(o *osOutcome) bool {
+			switch o.Outcome {
 			case "ok", "file", "dir":
-			default:
+				return false
+			}
+			return true
+		}
+		for i := lastOK + 1; i < len(run.OS) && trigger == nil; i++ {
+			if failing(&run.OS[i]) {
 				trigger = &run.OS[i]
 			}
-			if trigger != nil {
-				break
+		}
+		when := ""
+		if trigger == nil {
+			for i := lastOK - 1; i >= 0 && trigger == nil; i-- {
+				if failing(&run.OS[i]) {
+					trigger = &run.OS[i]
+				}
 			}
+			when = " (failed earlier)"
 		}
 		if trigger == nil {
-			continue
+			trigger = &osOutcome{Call: "no OS fault", Role: "-", Pos: "-"}
+			when = ""
 		}
-		k := fmt.Sprintf("%s|after %s|%s[%s]", run.Method, run.Mutated[0], trigger.Call, trigger.Role)
+		k := fmt.Sprintf("%s|%s|%s[%s]%s", run.Method, strings.Join(changes, ","), trigger.Call, trigger.Role, when)
 		if seen[k] {
 			continue
 		}
 		seen[k] = true
 		r.Ob(false)
-		r.Violation("effect-then-failure|"+k, trigger.Pos, fmt.Sprintf("%s answers %s although %s had already succeeded: the request is reported as failed but the tree has changed. Trace: %s", run.Method, run.Status, strings.Join(run.Mutated, ", "), run.describe()), nil)
+		r.Violation("effect-then-failure|"+k, trigger.Pos, fmt.Sprintf("%s answers %s although the tree has changed (%s) after %s: the request is reported as failed but stored data was changed or destroyed. Trace: %s", run.Method, run.Status, strings.Join(changes, ", "), strings.Join(run.Mutated, ", "), run.describe()), nil)
 	}
 	r.RequireRole("run")
 }
